@@ -119,13 +119,14 @@ Definition iroot_ok (h : hdr) (iq : QS) (r : dg) : bool := is_qroot iq r || leaf
 
 Definition mem_n (i : N) (l : list N) : bool := existsb (N.eqb i) l.
 
-(* [po] = the observation before the call: indices / addresses must be observed ones, the roots
-   the call verifies against must be roots the harness has declared a tree for (or not hashes) *)
-Definition wf_call (h : hdr) (sq iq : QS) (po : obs) (c : call dg) : bool :=
-  let univ := map fst (o_cl po) in
-  let addrs := map fst (o_bal po) in
-  let cur_s := match o_root po with Some r => sroot_ok h sq r | None => true end in
-  let cur_i := match o_root po with Some r => iroot_ok h iq r | None => true end in
+(* [u] = the initial observation (it fixes the universe of indices and addresses), [cur] = the
+   stored root before the call: indices / addresses must be in the universe, the roots the call
+   verifies against must be roots the harness has declared a tree for (or not hashes) *)
+Definition wf_call (h : hdr) (sq iq : QS) (u : obs) (cur : option dg) (c : call dg) : bool :=
+  let univ := map fst (o_cl u) in
+  let addrs := map fst (o_bal u) in
+  let cur_s := match cur with Some r => sroot_ok h sq r | None => true end in
+  let cur_i := match cur with Some r => iroot_ok h iq r | None => true end in
   match c with
   | Verify p r v => sroot_ok h sq r
   | VerifyIdx p r v i => iroot_ok h iq r && (0 <=? i)
@@ -163,13 +164,15 @@ Definition call_hits (h : hdr) (s : state dg) (c : call dg) : bool :=
   end.
 
 (* ---------- diff: replay through the model ---------- *)
-Fixpoint diff_from (h : hdr) (sq iq : QS) (s : state dg) (po : obs) (t : list item) (k : N) : N :=
+(* an observation may leave flags unread (their keys are simply absent): the model is observed on
+   exactly the keys the implementation was observed on *)
+Fixpoint diff_from (h : hdr) (sq iq : QS) (u : obs) (s : state dg) (t : list item) (k : N) : N :=
   match t with
   | [] => 0%N
   | (c, out, o) :: r =>
       let '(s', mo) := mstep h s c in
-      if wf_call h sq iq po c && call_hits h s c && out_eqb mo out && obs_eqb (observe_like o s') o
-      then diff_from h sq iq s' o r (N.succ k)
+      if wf_call h sq iq u (root s) c && call_hits h s c && out_eqb mo out && obs_eqb (observe_like o s') o
+      then diff_from h sq iq u s' r (N.succ k)
       else N.succ k
   end.
 
@@ -197,51 +200,66 @@ Definition upd_bals (bl : list (addr * Z)) (from to : addr) (m : Z) : list (addr
 Definition bal_of (bl : list (addr * Z)) (a : addr) : Z :=
   match alist_get a bl with Some z => z | None => 0 end.
 
-(* the call must have succeeded iff [ok]; on success the new observation is [o_ok],
-   on failure nothing may have changed *)
-Definition unit_expect (ok : bool) (po o_ok : obs) (out : outcome) (o : obs) : bool :=
-  if ok then out_eqb out (Ok None) && obs_eqb o o_ok
-  else out_eqb out Fail && obs_eqb o po.
+(* [o] was read from the implementation, possibly leaving some flags unread: every flag that was
+   read must have the expected value (a key that is not expected at all is a mismatch), root and
+   balances are always read *)
+Definition cl_sub (o e : list (N * bool)) : bool :=
+  forallb (fun ib => match alist_get (fst ib) e with Some b => Bool.eqb b (snd ib) | None => false end) o.
+Definition obs_sub (o e : obs) : bool :=
+  oroot_eqb (o_root o) (o_root e) && cl_sub (o_cl o) (o_cl e) && bal_eqb (o_bal o) (o_bal e).
 
-Definition mon_step (h : hdr) (sq iq : QS) (po : obs) (it : item) : bool :=
-  let '(c, out, o) := it in
+(* the call must have succeeded iff [ok]; on success the values are [o_ok], on failure nothing
+   may have changed; None = the outcome itself is wrong *)
+Definition unit_expect (ok : bool) (po o_ok : obs) (out : outcome) : option obs :=
+  if ok then (if out_eqb out (Ok None) then Some o_ok else None)
+  else (if out_eqb out Fail then Some po else None).
+
+(* [po] = the values every getter must have before the call (initially the first observation,
+   which reads everything; afterwards what this function returned).  Result: the values every
+   getter must have after the call, or None if the outcome violates the property. *)
+Definition mon_expect (h : hdr) (sq iq : QS) (po : obs) (c : call dg) (out : outcome) : option obs :=
   match c with
   | Verify p r v =>
-      out_eqb out (Ok (Some (honest_s sq r v p))) && obs_eqb o po
+      if out_eqb out (Ok (Some (honest_s sq r v p))) then Some po else None
   | VerifyIdx p r v i =>
-      out_eqb out (exp_idx iq p r v i) && obs_eqb o po
+      if out_eqb out (exp_idx iq p r v i) then Some po else None
   | SetRoot r =>
-      out_eqb out (Ok None) && obs_eqb o (Some r, o_cl po, o_bal po)
+      if out_eqb out (Ok None) then Some (Some r, o_cl po, o_bal po) else None
   | SetClaimed i =>
-      out_eqb out (Ok None) && obs_eqb o (o_root po, upd_claimed (o_cl po) i, o_bal po)
+      if out_eqb out (Ok None) then Some (o_root po, upd_claimed (o_cl po) i, o_bal po) else None
   | ClaimS i a m p =>
       let ok := match o_root po, alist_get i (o_cl po) with
                 | Some r, Some false => honest_s sq r (Lh h i a m) p
                 | _, _ => false
                 end in
-      unit_expect ok po (o_root po, upd_claimed (o_cl po) i, o_bal po) out o
+      unit_expect ok po (o_root po, upd_claimed (o_cl po) i, o_bal po) out
   | ClaimI i a m p =>
       let ok := match o_root po, alist_get i (o_cl po) with
                 | Some r, Some false =>
                     match exp_idx iq p r (Lh h i a m) (Z.of_N i) with Ok (Some true) => true | _ => false end
                 | _, _ => false
                 end in
-      unit_expect ok po (o_root po, upd_claimed (o_cl po) i, o_bal po) out o
+      unit_expect ok po (o_root po, upd_claimed (o_cl po) i, o_bal po) out
   | Airdrop i a m p =>
       let ok := match o_root po, alist_get i (o_cl po) with
                 | Some r, Some false =>
                     honest_s sq r (Lh h i a m) p && (0 <=? m) && (m <=? bal_of (o_bal po) (h_self h))
                 | _, _ => false
                 end in
-      unit_expect ok po (o_root po, upd_claimed (o_cl po) i, upd_bals (o_bal po) (h_self h) a m) out o
+      unit_expect ok po (o_root po, upd_claimed (o_cl po) i, upd_bals (o_bal po) (h_self h) a m) out
   | Advance n =>
-      out_eqb out (Ok None) && obs_eqb o po
+      (* time passing changes nothing: root, flags and balances are kept forever *)
+      if out_eqb out (Ok None) then Some po else None
   end.
 
 Fixpoint mon_from (h : hdr) (sq iq : QS) (po : obs) (t : list item) (k : N) : N :=
   match t with
   | [] => 0%N
-  | it :: r => if mon_step h sq iq po it then mon_from h sq iq (snd it) r (N.succ k) else N.succ k
+  | (c, out, o) :: r =>
+      match mon_expect h sq iq po c out with
+      | Some e => if obs_sub o e then mon_from h sq iq e r (N.succ k) else N.succ k
+      | None => N.succ k
+      end
   end.
 
 (* ---------- verdict ---------- *)
@@ -250,7 +268,7 @@ Definition check (t : trace) : verdict :=
   let sq := squads h in
   let iq := iquads h in
   if wf_hdr h
-  then (diff_from h sq iq (init_of h o0) o0 items 0%N, mon_from h sq iq o0 items 0%N, 0%N)
+  then (diff_from h sq iq o0 (init_of h o0) items 0%N, mon_from h sq iq o0 items 0%N, 0%N)
   else (1%N, mon_from h sq iq o0 items 0%N, 0%N).
 Definition check_all (ts : list trace) : list verdict := map check ts.
 
@@ -272,15 +290,15 @@ Fixpoint nodupb (l : list N) : bool :=
 Definition wf_obs (o : obs) : bool := nodupb (map fst (o_cl o)) && nodupb (map fst (o_bal o)).
 
 (* the per-call conditions [diff_from] checks, along the model's own run *)
-Fixpoint wf_run (h : hdr) (sq iq : QS) (s : state dg) (po : obs) (cs : list (call dg)) : bool :=
+Fixpoint wf_run (h : hdr) (sq iq : QS) (u : obs) (s : state dg) (cs : list (call dg)) : bool :=
   match cs with
   | [] => true
   | c :: r =>
       let '(s', out) := mstep h s c in
-      wf_call h sq iq po c && call_hits h s c && wf_run h sq iq s' (observe_like po s') r
+      wf_call h sq iq u (root s) c && call_hits h s c && wf_run h sq iq u s' r
   end.
 Definition wf_input (h : hdr) (o0 : obs) (cs : list (call dg)) : bool :=
-  wf_hdr h && wf_obs o0 && wf_run h (squads h) (iquads h) (init_of h o0) o0 cs.
+  wf_hdr h && wf_obs o0 && wf_run h (squads h) (iquads h) o0 (init_of h o0) cs.
 
 (* ---------- hand-made traces: the monitor accepts a correct history and rejects each kind of violation ---------- *)
 Module Examples.
@@ -352,6 +370,34 @@ Proof. vm_compute. reflexivity. Qed.
 Definition bad_reject_honest := mk_trace h0 (ob None f0 b0) [ it (Verify [At 3%N] (At 2%N) (At 1%N)) (Ok (Some false)) (ob None f0 b0) ].
 (* the honest proof of a leaf is rejected *)
 Example check_bad_reject_honest : check bad_reject_honest = (1%N, 1%N, 0%N).
+Proof. vm_compute. reflexivity. Qed.
+(* flag 0 is left unread after the claim (its key is absent), the ledger jumps, then everything is read *)
+Definition u0 := [(1%N,false);(2%N,false)].
+Definition good_unread := mk_trace h0 (ob None f0 b0)
+  [ it (SetRoot (At 2%N)) (Ok None) (ob R f0 b0);
+    it (ClaimS 0%N 5%N 100 [At 3%N]) (Ok None) (ob R u0 b0);
+    it (Verify [At 3%N] (At 2%N) (At 1%N)) (Ok (Some true)) (ob R u0 b0);
+    it (Advance 600000) (Ok None) (ob R f1 b0);
+    it (ClaimS 0%N 5%N 100 [At 3%N]) Fail (ob R f1 b0) ].
+Example check_good_unread : check good_unread = (0%N, 0%N, 0%N).
+Proof. vm_compute. reflexivity. Qed.
+(* the claimed flag lapses while nobody reads it: after the jump it reads false *)
+Definition bad_lapse := mk_trace h0 (ob None f0 b0)
+  [ it (SetRoot (At 2%N)) (Ok None) (ob R f0 b0);
+    it (ClaimS 0%N 5%N 100 [At 3%N]) (Ok None) (ob R u0 b0);
+    it (Advance 600000) (Ok None) (ob R f0 b0) ].
+Example check_bad_lapse : check bad_lapse = (3%N, 3%N, 0%N).
+Proof. vm_compute. reflexivity. Qed.
+(* the root lapses *)
+Definition bad_root_lapse := mk_trace h0 (ob None f0 b0)
+  [ it (SetRoot (At 2%N)) (Ok None) (ob R f0 b0);
+    it (Advance 4000000) (Ok None) (ob None f0 b0) ].
+Example check_bad_root_lapse : check bad_root_lapse = (2%N, 2%N, 0%N).
+Proof. vm_compute. reflexivity. Qed.
+(* a getter that traps is printed under an out-of-range key: rejected *)
+Definition bad_getter_trap := mk_trace h0 (ob None f0 b0)
+  [ it (SetRoot (At 2%N)) (Ok None) (ob R [(1099511627776%N,true);(1%N,false);(2%N,false)] b0) ].
+Example check_bad_getter_trap : check bad_getter_trap = (1%N, 1%N, 0%N).
 Proof. vm_compute. reflexivity. Qed.
 Example good_is_wf : wf_input h0 (ob None f0 b0) (map (fun x => fst (fst x)) (snd good)) = true.
 Proof. vm_compute. reflexivity. Qed.
